@@ -14,7 +14,9 @@ META = {
               'path is a class of versions taking the same rungs), all '
               'in-range (x,y,z), all 2^64 words in the decode direction; '
               'records: block_state_id < 2^31 before protocol 741, < 2^51 '
-              'from 741 on; W=96',
+              'from 741 on; one context object retargeted across 5 version '
+              'pairs, encoding and decoding (the same arbitrary 64-bit word '
+              'under v1, v2, v1); W=96',
     'outside': 'out-of-range coordinates (the statement only covers in-range '
                'triples)',
     'assumptions': [
